@@ -39,10 +39,11 @@ def T(**kw):
     return {k: {"target": v[0], "graceful": v[1]} for k, v in kw.items()}
 
 
-def I(actors, parent, roots, kids, mr, nmsg, sendto, toks, tgt, grace, faults, crash="AllKinds", batch=4, ifaults=0, dup=0):
+def I(actors, parent, roots, kids, mr, nmsg, sendto, toks, tgt, grace, faults, crash="AllKinds", batch=4, ifaults=0, dup=0, succ=None):
     return ("Actors <- %s Parent <- %s Roots <- %s KidsOf <- %s MaxRestarts <- %s NMsg = %d SendTo <- %s Toks <- %s TokTarget <- %s "
-            "TokGraceful <- %s Faults = %d IFaults = %d CrashKinds <- %s Batch = %d MaxDup = %d" % (
-                actors, parent, roots, kids, mr, nmsg, sendto, toks, tgt, grace, faults, ifaults, crash, batch, dup))
+            "TokGraceful <- %s Faults = %d IFaults = %d CrashKinds <- %s Batch = %d MaxDup = %d Succ <- %s" % (
+                actors, parent, roots, kids, mr, nmsg, sendto, toks, tgt, grace, faults, ifaults, crash, batch, dup,
+                succ or {"One": "NoSucc1", "Pair": "NoSucc2", "Chain": "NoSucc3c", "Fan": "NoSuccF"}[actors]))
 
 
 def one(mr, nmsg, toks, grace, faults, **kw):
@@ -68,6 +69,11 @@ INST = {
     # duplicate spawns and respawn of a stopped id, with pending messages and a graceful drain in progress
     "dup_a": (one("MR0_1", 2, "T1", "G_t1", 0, dup=2), A0, T(t1=("A", True))),
     "dup_b": (one("MR0_1", 1, "T1", "G_none", 1, dup=2, crash="UserOnly"), A0, T(t1=("A", False))),
+    # succession: A spawns B under its own id from inside its final Stopped handler (leftover messages, a crash before)
+    "succ_a": (I("Line", "ParentLine", "RootA", "KidsNoneL", "MR1_L", 2, "SendAB", "T1", "TgtA_L", "G_none", 1, crash="UserOnly", succ="SuccAB"),
+               {"A": {"parent": "", "kids": [], "maxRestarts": 1, "succ": "B"}, "B": {"parent": "", "kids": [], "maxRestarts": 1, "succ": ""}}, T(t1=("A", False))),
+    "succ_b": (I("Line", "ParentLine", "RootA", "KidsNoneL", "MR0_L", 2, "SendAB", "T1", "TgtA_L", "G_t1", 1, crash="UserOnly", succ="SuccAB"),
+               {"A": {"parent": "", "kids": [], "maxRestarts": 0, "succ": "B"}, "B": {"parent": "", "kids": [], "maxRestarts": 0, "succ": ""}}, T(t1=("A", True))),
     # the Stopped handler itself panics (after poison, after stop, after a crash)
     "one_s": (one("MR1_1", 1, "T1", "G_t1", 2, crash="StoppedAndUser"), A1, T(t1=("A", True))),
     "pair_a": (I("Pair", "ParentPair", "RootP", "KidsPair", "MRc0p1", 1, "SendC", "T1", "T1onP", "G_t1", 1), pair(1, 0), T(t1=("P", True))),
@@ -82,16 +88,16 @@ ALL_QUICK = ["one_a", "one_b", "one_c", "one_d", "one_f", "one_g", "pair_a", "ch
 PLAN = {
     "quick": {
         "C02": ["one_a", "one_c", "one_d", "one_f", "one_i", "pair_a"],
-        "C04": ["one_a", "one_b", "one_c", "one_d", "one_g", "one_s", "pair_a"],
+        "C04": ["one_a", "one_b", "one_c", "one_d", "one_g", "one_s", "succ_a", "succ_b", "pair_a"],
         "C05": ["one_a", "one_c", "one_f", "one_g", "one_h", "one_i", "one_s", "pair_a"],
         "C06": ["one_c", "one_d", "one_f", "one_g", "one_j", "pair_a", "pair_b"],
         "C07": ["one_a", "one_b", "one_d", "one_s", "pair_a", "chain_b"],
         "C08": ["pair_a", "pair_b", "chain_a", "chain_b", "fan_a"],
         "C13": ["one_a", "one_c", "one_d", "one_g", "pair_a"],
         "C12": ["one_a", "one_c", "one_d", "dup_a", "pair_a"],
-        "C10": ["dup_a", "dup_b", "one_a", "pair_a"],
+        "C10": ["dup_a", "dup_b", "succ_a", "one_a", "pair_a"],
     },
-    "thorough": {p: ["one_a", "one_b", "one_c", "one_d", "one_e", "one_f", "one_g", "one_h", "one_i", "one_j", "one_s", "pair_a", "pair_b", "chain_a", "chain_b", "fan_a"]
+    "thorough": {p: ["one_a", "one_b", "one_c", "one_d", "one_e", "one_f", "one_g", "one_h", "one_i", "one_j", "one_s", "succ_a", "succ_b", "pair_a", "pair_b", "chain_a", "chain_b", "fan_a"]
                  for p in ("C02", "C04", "C05", "C06", "C07", "C08", "C13", "C12")},
 }
 PLAN["thorough"]["C10"] = ["dup_a", "dup_b", "one_a", "one_d", "pair_a", "pair_b", "chain_a"]
@@ -114,7 +120,7 @@ INVS_DUP = "C02_NoOverlap C04_Lifecycle C05_AtMostOnce C05_InOrder C06_Alive C10
 
 
 def model_cfg(inst, eager):
-    invs = INVS_DUP if "MaxDup = 0" not in INST[inst][0] else INVS
+    invs = INVS_DUP if ("MaxDup = 0" not in INST[inst][0] or "SuccAB" in INST[inst][0]) else INVS
     return ("CONSTANTS " + INST[inst][0] + " Eager = %s " % ("TRUE" if eager else "FALSE") + FIX +
             "\nSPECIFICATION Spec\nINVARIANTS " + invs + "\n")
 
@@ -146,18 +152,29 @@ def normalise(res, inst):
     return r
 
 
-def conforms(res, exp):
+def id_owner(actors, name):
+    for n, c in actors.items():
+        if c.get("succ") == name:
+            return id_owner(actors, n)
+    return name
+
+
+def conforms(res, exp, actors=None):
     """recorded history equals the behaviour's history?"""
+    ren = (lambda a: id_owner(actors, a)) if actors else (lambda a: a)
     keys = ("a", "inc", "kind", "id", "mw", "kids", "alive", "sreg", "dn")
     got = [{k: e[k] for k in keys} for e in res["log"]]
     if got != [{k: e[k] for k in keys} for e in exp["log"]]:
         return "log differs"
-    ge = sorted((e["e"], e["a"], e["n"]) for e in res["events"])
-    ee = sorted((e["e"], e["a"], e["n"]) for e in exp["events"])
+    ge = sorted((e["e"], ren(e["a"]), e["n"]) for e in res["events"])
+    ee = sorted((e["e"], ren(e["a"]), e["n"]) for e in exp["events"])
     if ge != ee:
         return "events differ: got %s want %s" % (ge, ee)
-    for a in exp["reg"]:
-        if res["reg"].get(a) != exp["reg"][a]:
+    owners = {}
+    for a in exp["reg"]:                      # (actors that share an id are one registry entry)
+        owners[ren(a)] = owners.get(ren(a), False) or exp["reg"][a]
+    for a, want in owners.items():
+        if res["reg"].get(a) != want:
             return "registry differs for " + a
     if sorted(t for t, d in res["done"].items() if d["at"] >= 0) != exp["done"]:
         return "done contexts differ"
@@ -283,7 +300,7 @@ def do_instance(binp, prop, tier, inst):
             r = byid.get(s["id"])
             if r is None:
                 continue
-            why = "diverged: " + r.get("divergence", "") if r["diverged"] else conforms(r, e)
+            why = "diverged: " + r.get("divergence", "") if r["diverged"] else conforms(r, e, INST[inst][1])
             if why is None:
                 nconf += 1
             elif racy:
